@@ -2,8 +2,18 @@
 """prints the prompt given to an isolated mutation-seeding sub-agent for one property"""
 import json, sys
 pid = sys.argv[1]; n = int(sys.argv[2]) if len(sys.argv) > 2 else 3
+rnd = int(sys.argv[3]) if len(sys.argv) > 3 else 1
+import glob, os
+used = []
+for mp in sorted(glob.glob('/verif/seeded/%s/*/meta.json' % pid)):
+    d = json.load(open(mp)); used.append("%s - %s" % (d.get("site", "?"), str(d.get("title", ""))[:110]))
 p = [json.loads(l) for l in open('/verif/properties.jsonl') if json.loads(l)['id'] == pid][0]
 wt = "/tmp/seed_%s" % pid; out = "/tmp/seed_%s_out" % pid
+extra = ""
+if rnd > 1 and used:
+    extra = ("\nThis is round %d. Changes already produced in earlier rounds (do NOT repeat these functions or ideas; find different ones):\n  - " % rnd
+             + "\n  - ".join(used)
+             + "\nFor this round look further afield: helper functions in other modules that the property silently depends on; behaviour that differs only for one dtype (float32, complex, integer), one dimension, one composite rank (>= 2, or size-1 axes), one non-default keyword argument, the second call on the same object (state / caching / aliasing of caller data), an input at a boundary (zero, exactly equal values, an empty word or list, a repeated label), or the interaction of two call sites that each look fine alone. At least one of your changes should be a 'two cooperating sites' or 'needs a sequence of calls' change.\n")
 print(f"""You are testing how good a (hidden) verification harness is. You get one semantic property of the Python library tjweisman/geometry_tools (numpy toolkit for hyperbolic/projective geometry, isometries, group representations, Coxeter groups, finite-state automata, matplotlib drawing) and your own scratch git worktree of the library at {wt} (a detached worktree; edit files there freely; never touch /repo, never look at or touch /verif or any other /tmp/seed_* directory).
 
 PROPERTY {pid}: {p['title']}
@@ -11,6 +21,7 @@ Statement: {p['statement']}
 Quantified over: {p['quantifier']['text']}
 Code it is anchored in: {', '.join(p['anchors']['files'])}
 
+{extra}
 TASK: produce {n} DIFFERENT realistic changes (bugs) to the library, each of which breaks this property while the library still imports and the existing test suite still gives the same result. "Realistic" = the kind of slip a maintainer could make in a refactor or "optimisation" (operand order, transposed/swapped axes, dropped abs/sign/copy, off-by-one, wrong mask or index, stale cache or aliasing, boundary comparison, a special case handled wrongly, an early return, two cooperating sites that each look fine alone). Prefer changes that need something SPECIFIC to manifest - an unusual but legitimate input (a composite shape, a size-1 axis, a negative scale factor, a special angle, a particular dimension, a non-default option), a multi-step sequence of operations, or a particular combination of options - rather than ones that any ordinary use exposes at once. The {n} changes must have different root sites (different functions), and each must be independent (each diff is against the pristine worktree, not cumulative). Make them moderately subtle but not absurdly contrived: the property must be clearly violated for the triggering inputs (a wrong value well above rounding error, a wrong word set, a stale array, an exception where a result is due).
 
 Existing test suite (must give exactly the same outcome with your change as without: 81 passed, 3 failed, 2 errors - those 3 failures/2 errors are pre-existing and unrelated):
